@@ -243,7 +243,8 @@ static std::string make_line(Rng &rng, const Opts &o, bool rebuild) {
     for (auto &pr : g_rec) { l << *pr.first; l << *pr.second; }
     if (rebuild) {
         long K = rng.range(1, 3); l << K;
-        for (long k = 0; k < K; ++k) { if (k == 2) l << h.A; else l << perturb(rng, h.A, (int)rng.range(0, 3)); }
+        // the matrices handed to rebuild() list their row entries in arbitrary order half of the time (rebuild sorts its copy)
+        for (long k = 0; k < K; ++k) { Mat B = k == 2 ? h.A : perturb(rng, h.A, (int)rng.range(0, 3)); if (rng.coin()) B = unsort(rng, B, false); l << B; }
     }
     return l.get();
 }
